@@ -20,7 +20,7 @@ Verdict(conf, mon) == (conf /\ mon) \/ PrintT(<<"VERDICT", ToJson([l |-> l, conf
 
 TBuild == /\ l <= Len(TraceLog) /\ Ev.op = "build" /\ l' = l + 1 /\ UNCHANGED <<vrf0, tbl0, nn, cc, pool>>
           /\ LET got == [err |-> Ev.err, p |-> Ev.p, e |-> Ev.e, c |-> Ev.c]
-             IN Verdict(got = Build(Ev.vrf, tbl0, nn, cc), WellFormed(got, tbl0, cc) /\ Ev.same)
+             IN Verdict(~Ev.re \/ got = Build(Ev.vrf, tbl0, nn, cc), WellFormed(got, tbl0, cc) /\ Ev.same)   \* re: recompute this draw
 
 TPeers == /\ l <= Len(TraceLog) /\ Ev.op = "peers" /\ l' = l + 1 /\ UNCHANGED <<vrf0, tbl0, nn, cc, pool>>
           /\ Verdict(Ev.out = CalcPeers(Ev.vrf, tbl0, nn, cc, Ev.kind, Ev.props),
